@@ -62,8 +62,11 @@ class Pair:
         elif kind == 'expire':
             ep = self.ep(action[1])
             children = [c for sa in ep.controller.ike_sas for c in sa.child_sas]
+            self.last_expire = None
             if children:
                 ch = children[action[2] % len(children)]
+                owner = next(sa for sa in ep.controller.ike_sas if any(c is ch for c in sa.child_sas))
+                self.last_expire = (action[1], bytes(ch.inbound_spi), owner)
                 sent = ep.expire(bytes(ch.inbound_spi), bool(action[3]))
         elif kind in ('deliver', 'drop', 'dup'):
             if sim.net:
